@@ -21,3 +21,170 @@ package engine
 //@ func parseSQL(q string) (interface{}, error)
 //@   props C09
 //@   loop 1 invariant tl.tokens == nil || fresh(tl.tokens)
+
+// ---- rows / fields shape (backbone of C18, C06) ----
+
+//@ spec pred rowFits(qfields storage.Fields, row *storage.Row) { row != nil && len(row.Vals) == len(qfields) }
+//@ spec pred rowsFit(qfields storage.Fields, rows []*storage.Row) { forall i int :: 0 <= i && i < len(rows) ==> rowFits(qfields, rows[i]) }
+
+//@ func findColumnInFieldList(selectCol sql.ColumnReference, resultCols storage.Fields) (int, error)
+//@   props C05 C06 C18
+//@   pure
+//@   requires storage.fieldsOK(resultCols)
+//@   ensures[found] err == nil ==> 0 <= result0 && result0 < len(resultCols) && resultCols[result0].Column == selectCol.ColumnName
+//@   ensures[qualified; C06] err == nil && selectCol.Qualifier != "" ==> resultCols[result0].TableID == selectCol.Qualifier
+//@   ensures[unqualified; C06] err == nil && selectCol.Qualifier == "" ==>
+//@              forall j int :: 0 <= j && j < len(resultCols) && j != result0 ==> resultCols[j].Column != selectCol.ColumnName
+//@   ensures[err] err != nil ==> result0 == 0 - 1 && (errIs(err, storage.ErrFieldNotFound) || errIs(err, storage.ErrFieldAmbiguous))
+
+//@ func evalPrimary(q interface{}, qfields storage.Fields, row *storage.Row) (interface{}, error)
+//@   props C05 C18
+//@   pure
+//@   requires storage.fieldsOK(qfields) && rowFits(qfields, row)
+//@   ensures[literal] typeof(q) != typ(sql.ColumnReference) ==> err == nil && result0 == q
+//@   ensures[column] typeof(q) == typ(sql.ColumnReference) && err == nil ==> exists idx int :: 0 <= idx && idx < len(row.Vals) &&
+//@              qfields[idx].Column == q.(sql.ColumnReference).ColumnName && result0 == row.Vals[idx]
+
+//@ func newErrIncompatTypeCompare(LHS any, RHS any) error
+//@   props C05 C18
+//@   pure
+//@   ensures result != nil && errIs(result, ErrIncompatTypeCompare)
+
+//@ spec pred isLit(q interface{}) { typeof(q) != typ(sql.ColumnReference) }
+
+//@ func evalComparisonPredicate(q sql.ComparisonPredicate, qfields storage.Fields, row *storage.Row) (bool, error)
+//@   props C05 C18
+//@   pure
+//@   requires storage.fieldsOK(qfields) && rowFits(qfields, row)
+//@   ensures[eq; C05] isLit(q.LHS) && isLit(q.RHS) && q.CompOp == sql.EQ ==> err == nil && result0 == (q.LHS == q.RHS)
+//@   ensures[neq; C05] isLit(q.LHS) && isLit(q.RHS) && q.CompOp == sql.NEQ ==> err == nil && result0 == (q.LHS != q.RHS)
+//@   ensures[int; C05] typeof(q.LHS) == typ(int64) && typeof(q.RHS) == typ(int64) ==>
+//@              (q.CompOp == sql.GT ==> err == nil && result0 == (q.LHS.(int64) > q.RHS.(int64))) &&
+//@              (q.CompOp == sql.GTE ==> err == nil && result0 == (q.LHS.(int64) >= q.RHS.(int64))) &&
+//@              (q.CompOp == sql.LT ==> err == nil && result0 == (q.LHS.(int64) < q.RHS.(int64))) &&
+//@              (q.CompOp == sql.LTE ==> err == nil && result0 == (q.LHS.(int64) <= q.RHS.(int64)))
+//@   ensures[str; C05] typeof(q.LHS) == typ(string) && typeof(q.RHS) == typ(string) ==>
+//@              (q.CompOp == sql.GT ==> err == nil && result0 == (q.LHS.(string) > q.RHS.(string))) &&
+//@              (q.CompOp == sql.GTE ==> err == nil && result0 == (q.LHS.(string) >= q.RHS.(string))) &&
+//@              (q.CompOp == sql.LT ==> err == nil && result0 == (q.LHS.(string) < q.RHS.(string))) &&
+//@              (q.CompOp == sql.LTE ==> err == nil && result0 == (q.LHS.(string) <= q.RHS.(string)))
+//@   ensures[mixed; C05] typeof(q.LHS) == typ(int64) && typeof(q.RHS) == typ(string) &&
+//@              (q.CompOp == sql.GT || q.CompOp == sql.GTE || q.CompOp == sql.LT || q.CompOp == sql.LTE) ==> err != nil
+
+//@ func evaluate(q interface{}, qfields storage.Fields, row *storage.Row) (any, error)
+//@   props C05 C18
+//@   pure
+//@   requires storage.fieldsOK(qfields) && rowFits(qfields, row)
+//@   ensures[literal; C05] (typeof(q) == typ(int64) || typeof(q) == typ(string) || typeof(q) == typ(bool)) ==> err == nil && result0 == q
+//@   ensures[bool; C05] err == nil && (typeof(q) == typ(sql.SearchCondition) || typeof(q) == typ(sql.BooleanTerm) || typeof(q) == typ(sql.Predicate)) ==>
+//@              typeof(result0) == typ(bool)
+//@   ensures[other] !(typeof(q) == typ(int64) || typeof(q) == typ(string) || typeof(q) == typ(bool) || typeof(q) == typ(sql.SearchCondition) ||
+//@              typeof(q) == typ(sql.BooleanTerm) || typeof(q) == typ(sql.Predicate)) ==> err != nil
+
+//@ func evalOr(q sql.SearchCondition, qfields storage.Fields, row *storage.Row) (bool, error)
+//@   props C05 C18
+//@   pure
+//@   requires storage.fieldsOK(qfields) && rowFits(qfields, row)
+//@   ensures[or; C05] typeof(q.LHS) == typ(bool) && typeof(q.RHS) == typ(bool) ==> err == nil && result0 == (q.LHS.(bool) || q.RHS.(bool))
+//@   ensures[nonbool; C05] (typeof(q.LHS) == typ(int64) || typeof(q.LHS) == typ(string)) ==> err != nil
+
+//@ func evalAnd(q sql.BooleanTerm, qfields storage.Fields, row *storage.Row) (bool, error)
+//@   props C05 C18
+//@   pure
+//@   requires storage.fieldsOK(qfields) && rowFits(qfields, row)
+//@   ensures[nonbool; C05] (typeof(q.RHS) == typ(int64) || typeof(q.RHS) == typ(string)) ==> err != nil
+
+//@ func filterRows(q sql.WhereClause, qfields storage.Fields, rows []*storage.Row) ([]*storage.Row, error)
+//@   props C05 C18
+//@   requires storage.fieldsOK(qfields) && rowsFit(qfields, rows)
+//@   modifies nothing
+//@   ensures[fit; C18] err == nil ==> rowsFit(qfields, result0) && len(result0) <= len(rows)
+//@   ensures[subset; C05] err == nil ==> forall i int :: 0 <= i && i < len(result0) ==> exists j int :: 0 <= j && j < len(rows) && result0[i] == rows[j]
+//@   ensures[all; C05] q.SearchCondition == true ==> err == nil && len(result0) == len(rows) && (forall i int :: 0 <= i && i < len(rows) ==> result0[i] == rows[i])
+//@   ensures[none; C05] q.SearchCondition == false ==> err == nil && len(result0) == 0
+//@   ensures[fresh] result0 == nil || fresh(result0)
+//@   loop 1 invariant (ans == nil || fresh(ans)) && len(ans) <= rangeindex + 1 && rowsFit(qfields, ans)
+//@   loop 1 invariant forall i int :: 0 <= i && i < len(ans) ==> exists j int :: 0 <= j && j < len(rows) && ans[i] == rows[j]
+//@   loop 1 invariant q.SearchCondition == true ==> len(ans) == rangeindex + 1 && (forall i int :: 0 <= i && i <= rangeindex ==> ans[i] == rows[i])
+//@   loop 1 invariant q.SearchCondition == false ==> len(ans) == 0
+//@   loop 1 decreases len(rows) - rangeindex
+
+// ---- RelationManager: trusted interface contracts (what the engine relies on) ----
+
+//@ ghost var txn int
+//@ ghost var storeState int
+
+//@ iface (rm RelationManager) StartTxn()
+//@   props C13
+//@   trusted
+//@   requires txn == 0
+//@   modifies txn
+//@   ensures txn == 1
+
+//@ iface (rm RelationManager) EndTxn()
+//@   props C13
+//@   trusted
+//@   requires txn == 1
+//@   modifies txn
+//@   ensures txn == 0
+
+//@ iface (rm RelationManager) Fetch(tableName string) ([]*storage.Row, []*storage.Field, error)
+//@   trusted
+//@   requires txn == 1
+//@   modifies storeState
+//@   ensures err == nil ==> storage.fieldsOK(result1) && rowsFit(result1, result0)
+//@   ensures err == nil ==> (result0 == nil || fresh(result0)) && (result1 == nil || fresh(result1))
+//@   ensures err == nil ==> (forall i int :: 0 <= i && i < len(result0) ==> fresh(result0[i]) && (result0[i].Vals == nil || fresh(result0[i].Vals)))
+//@   ensures err == nil ==> (forall j int :: 0 <= j && j < len(result1) ==> fresh(result1[j]) && typeof(result1[j].Column) == typ(string))
+
+//@ iface (rm RelationManager) Insert(tableName string, cols []string, vals []interface{}) (storage.WALBatch, error)
+//@   trusted
+//@   requires txn == 1
+//@   modifies storeState
+//@   ensures result0 == nil || fresh(result0)
+
+//@ iface (rm RelationManager) Update(tableName string, rowID uint32, cols []string, updateSrc []interface{}) (storage.WALBatch, error)
+//@   trusted
+//@   requires txn == 1
+//@   modifies storeState
+//@   ensures result0 == nil || fresh(result0)
+
+//@ iface (rm RelationManager) MarkDeleted(tableName string, rowID uint32) (storage.WALBatch, error)
+//@   trusted
+//@   requires txn == 1
+//@   modifies storeState
+//@   ensures result0 == nil || fresh(result0)
+
+//@ iface (rm RelationManager) FlushWALBatch(batch storage.WALBatch) error
+//@   trusted
+//@   requires txn == 1
+//@   modifies storeState
+
+//@ iface (rm RelationManager) CreateTable(r *storage.Relation, tableName string) error
+//@   trusted
+//@   requires txn == 0
+//@   modifies storeState
+
+// ---- well-formedness of statements produced by the parser (abstract; unfolded by axioms) ----
+
+//@ spec abstract tfWF(tf any)
+//@ axiom tfWF.table: forall tf any :: tfWF(tf) && typeof(tf) == typ(sql.TableName) ==>
+//@        (tf.(sql.TableName).CorrelationName == nil || typeof(tf.(sql.TableName).CorrelationName) == typ(string))
+//@ axiom tfWF.join: forall tf any :: tfWF(tf) && typeof(tf) == typ(sql.QualifiedJoin) ==>
+//@        tfWF(tf.(sql.QualifiedJoin).LHS) && tfWF(tf.(sql.QualifiedJoin).RHS)
+
+//@ func nestedLoopJoin(rm RelationManager, tf sql.TableReference) ([]*storage.Row, storage.Fields, error)
+//@   props C06 C18
+//@   requires txn == 1 && rm != nil && tfWF(tf)
+//@   modifies storeState
+//@   ensures[txn; C13] txn == 1
+//@   ensures[shape; C06 C18] err == nil ==> storage.fieldsOK(result1) && rowsFit(result1, result0)
+//@   ensures[fresh] err == nil ==> (result0 == nil || fresh(result0)) && (result1 == nil || fresh(result1))
+//@   ensures[freshrows] err == nil ==> (forall i int :: 0 <= i && i < len(result0) ==> fresh(result0[i]) && (result0[i].Vals == nil || fresh(result0[i].Vals)))
+//@   ensures[freshfields] err == nil ==> (forall j int :: 0 <= j && j < len(result1) ==> fresh(result1[j]) && typeof(result1[j].Column) == typ(string))
+//@   loop 2 invariant (tmpRows == nil || fresh(tmpRows)) && rowsFit(tmpFields, tmpRows) && (forall i int :: 0 <= i && i < len(tmpRows) ==> fresh(tmpRows[i]) && (tmpRows[i].Vals == nil || fresh(tmpRows[i].Vals)))
+//@   loop 3 invariant (tmpRows == nil || fresh(tmpRows)) && rowsFit(tmpFields, tmpRows) && (forall i int :: 0 <= i && i < len(tmpRows) ==> fresh(tmpRows[i]) && (tmpRows[i].Vals == nil || fresh(tmpRows[i].Vals)))
+//@   loop 4 invariant (tmpRows == nil || fresh(tmpRows)) && rowsFit(tmpFields, tmpRows) && (forall i int :: 0 <= i && i < len(tmpRows) ==> fresh(tmpRows[i]) && (tmpRows[i].Vals == nil || fresh(tmpRows[i].Vals)))
+//@   loop 5 invariant (tmpRows == nil || fresh(tmpRows)) && rowsFit(tmpFields, tmpRows) && (forall i int :: 0 <= i && i < len(tmpRows) ==> fresh(tmpRows[i]) && (tmpRows[i].Vals == nil || fresh(tmpRows[i].Vals)))
+//@   loop 6 invariant (tmpRows == nil || fresh(tmpRows)) && rowsFit(tmpFields, tmpRows) && (forall i int :: 0 <= i && i < len(tmpRows) ==> fresh(tmpRows[i]) && (tmpRows[i].Vals == nil || fresh(tmpRows[i].Vals)))
+//@   loop 7 invariant (tmpRows == nil || fresh(tmpRows)) && rowsFit(tmpFields, tmpRows) && (forall i int :: 0 <= i && i < len(tmpRows) ==> fresh(tmpRows[i]) && (tmpRows[i].Vals == nil || fresh(tmpRows[i].Vals)))
